@@ -9,17 +9,15 @@ Model of the step before every parser: what grid of cells the importers hand on 
   moved up); empty lines after the last record are not rows.
 * XLSX: trailing blank cells of a row and trailing blank rows are not stored; everything else comes back as written.
 -/
-import TableauVerif.Model.Basic
+import TableauVerif.Model.CSV
 namespace TableauVerif.Model.Importer
 open TableauVerif
 
-/-- a record that a CSV writer puts out as an empty line -/
-def blankLine (r : List Str) : Bool := r == [[]]
-
 def trimRight {α} (p : α → Bool) (l : List α) : List α := (l.reverse.dropWhile p).reverse
 
-def csvGrid (allQuoted : Bool) (rows : List (List Str)) : List (List Str) :=
-  if allQuoted then rows else trimRight (·.isEmpty) (rows.map fun r => if blankLine r then [] else r)
+/-- what `readCSVRows` hands on for a grid written as CSV (`Model.CSV.keepRows`, which `Props.C01Csv` derives from
+the reader at text level); `allQuoted` = the writer quotes every cell, blank ones too -/
+def csvGrid (allQuoted : Bool) (rows : List (List Str)) : List (List Str) := CSV.keepRows (!allQuoted) rows 0
 
 def xlsxGrid (rows : List (List Str)) : List (List Str) :=
   trimRight (·.isEmpty) (rows.map (trimRight (·.isEmpty)))
